@@ -885,12 +885,12 @@ MUTANTS = [
      (_D, "        for itr in range(topo.t.shape[0]):",
       "        for itr in range(topo.t.shape[0] - 1):"), "C04-R3"),
     ("facet block numbered in 1-D again (guard mismatch)",
-     (_D, "        if element.dim >= 2 and element.facet_dofs > 0:\n"
+     (_D, "        if topo.dim() >= 2 and element.facet_dofs > 0:\n"
       "            self.facet_dofs = np.reshape(",
       "        if element.facet_dofs > 0:\n"
       "            self.facet_dofs = np.reshape("), "C04-R3"),
     ("edge rows stacked after facet rows",
-     (_D, "        # edge dofs\n        if element.dim == 3 and "
+     (_D, "        # edge dofs\n        if topo.dim() == 3 and "
       "element.edge_dofs > 0:\n            for itr in range("
       "topo.t2e.shape[0]):\n                self.element_dofs = np.vstack((\n"
       "                    self.element_dofs,\n                    "
